@@ -10,6 +10,37 @@ def replay_obj(c):
             "tlc": {"clauses": c["clauses"]}}
 
 
+def _construction(out):
+    """the construction as a machine: LRBuild.tla model-checked (all handling orders) + real constructions validated by LRBuildTrace.tla"""
+    from . import stage_build
+    from .common import MachineryFailure
+
+    r = stage_build.get(tier(), seed())
+    d = r["design"]
+    if d["violated"]:
+        raise MachineryFailure("design-level property %s of spec/LRBuild.tla is violated: the specified construction needs repair, no verdict on the code" % d["violated"])
+    if d["neg_violated"] != "Bounded":
+        raise MachineryFailure("negative control of LRBuild (construction before fix a3802e2 on the D4 witness grammars) did not violate Bounded: the design-level check is vacuous")
+    out.cov["states"] += r["stats"]["states"] + d["states"]
+    out.cov["transitions"] += r["stats"]["generated"] + d["generated"]
+    out.cov["design_level_LRBuild"] = d
+    out.cov["constructions_validated"] = {"traces": len(r["traces"]), "events": sum(t["events"] for t in r["traces"]), "merge_decisions": sum(t["merges"] for t in r["traces"]),
+                                          "not_recorded": len(r["unrecorded"])}
+    for t in r["traces"]:
+        out.count()
+        out.cov["traces_validated_against_impl"] += 1
+        if t["merges"] >= 3:
+            out.nontrivial("build:" + t["name"])
+        if t["verdict"] != "ok":
+            out.fail("C05:" + t["verdict"], "%s @event %d" % (t["name"], t["at"]), {"kind": "construction-trace", "name": t["name"], "gtext": t["gtext"], "verdict": t["verdict"], "event": t["at"]},
+                     origin=t["origin"])
+    for u in r["unrecorded"]:
+        if "StateBudgetExceeded" in u["err"] or "Timeout" in u["err"]:
+            out.fail("C05:construction-diverges", u["name"], {"kind": "construction-trace", "name": u["name"], "gtext": u["gtext"], "err": u["err"]}, origin=u["origin"])
+        else:
+            out.drift.append("construction not recorded: %s on %s" % (u["err"], u["name"]))
+
+
 def c05(replay_case=None):
     out = Outcome("C05")
     if replay_case is not None:
@@ -29,10 +60,15 @@ def c05(replay_case=None):
                 out.fail(cl, c["name"], replay_obj(c), origin=c["origin"])
             elif cl.startswith("X:"):
                 out.drift.append("%s on %s" % (cl, c["name"]))
+    if replay_case is None:
+        _construction(out)
     out.assumptions = ["every nonterminal of a generated grammar is productive and reachable (computed by the generator)",
                        "tables are built with no resolution strategy (GLRParser defaults / create_table with both prefer flags off)",
                        "divergence is decided by the state budget hook PARGLARE_VERIF_MAX_STATES (wall-clock alarm only as backstop)"]
     return out.finish(extra_cov={
         "rule": "cases = real LALR and SLR tables of enumerated/sampled/random productive grammars (main start and LAYOUT start), each walked by TLC in lock-step "
-                "with the canonical LR(1) collection; non-trivial = canonical collection has >= 8 states; distinct by (grammar, tables, start)",
+                "with the canonical LR(1) collection; non-trivial = canonical collection has >= 8 states; distinct by (grammar, tables, start); "
+                "construction: spec/LRBuild.tla (queue, merge / merge-other / split decisions, propagation rounds) model-checked on small grammars for every order of handling a state's "
+                "symbols (Bounded, Terminates under weak fairness, Faithful; the pre-fix algorithm must violate Bounded), and every recorded real LALR construction (hooks tbl_pop, "
+                "tbl_goto, tbl_states) validated event by event against it, ending in exactly the recorded kernel lookaheads (LRBuildTrace.tla)",
         "unparsed_grammars": len(st["unparsed"])})
